@@ -31,7 +31,7 @@ for p in sorted(glob.glob('/verif/props/C*.toml')):
 print(' '.join(res))
 PY
 )
-  git -C /repo apply /verif/seeded/$id/patch.diff || { echo "$id: patch does not apply"; continue; }
+  git -C ${VERIF_REPO:-/repo} apply /verif/seeded/$id/patch.diff || { echo "$id: patch does not apply"; continue; }
   want=$(python3 -c "import json;print(json.load(open('seeded/$id/meta.json'))['breaks_property'])")
   echo $PROPS | tr ' ' '\n' | xargs -P 4 -I{} sh -c "./check {} > $T/{}.txt 2>&1"
   out=""
@@ -39,7 +39,7 @@ PY
     if grep -q "^VIOLATION" $T/$p.txt; then out="$out $p"; fi
     if grep -q "^UNDECIDED\|^BROKEN-CHECK" $T/$p.txt; then out="$out $p(undecided)"; fi
   done
-  git -C /repo checkout -- .
+  git -C ${VERIF_REPO:-/repo} checkout -- .
   echo "$id: breaks=$want ran=[$PROPS] alarms=[$out ]"
 done
 cp $T/evidence_keep/*.json evidence/; rm -rf $T
